@@ -321,3 +321,37 @@ def l1_scale(case, lorch=None):
     mag = sum(abs(xc[i + 1] - xc[i]) * (abs(yc[i + 1]) + abs(yc[i])) / 2 for i in range(len(xc) - 1))
     emag = math.sqrt(sum((xc[i + 1] - xc[i]) ** 2 * (ec[i + 1] ** 2 + ec[i] ** 2) / 2 for i in range(len(xc) - 1)))
     return xc, yc, ec, mag, emag
+
+
+class poisoned_empty:
+    """While active, numpy.empty / numpy.empty_like hand out buffers pre-filled with `fill` (what an allocator may
+    legitimately return for uninitialised memory); code that reads a slot it never wrote becomes visible."""
+
+    def __init__(self, fill):
+        self.fill = fill
+
+    def __enter__(self):
+        self._e, self._el = np.empty, np.empty_like
+        fill = self.fill
+
+        def empty(*a, **k):
+            out = self._e(*a, **k)
+            try:
+                out.fill(fill)
+            except Exception:
+                pass
+            return out
+
+        def empty_like(*a, **k):
+            out = self._el(*a, **k)
+            try:
+                out.fill(fill)
+            except Exception:
+                pass
+            return out
+        np.empty, np.empty_like = empty, empty_like
+        return self
+
+    def __exit__(self, *exc):
+        np.empty, np.empty_like = self._e, self._el
+        return False
